@@ -3,8 +3,8 @@
 
   Property theorems only (helpers: FsProofs/Lemmas/FileLemmas.lean).  The reference `IoRef` is
   `io.FileIO` on a regular file restated as a pure state machine (validated against the real
-  `io.FileIO` on every run); `MemFile` is `_MemoryFile` of fs/memoryfs.py line by line over a
-  model of the shared `io.BytesIO`.  All statements quantify over every mode string / flag
+  `io.FileIO` on every run); `MemFile` is `_MemoryFile` of fs/memoryfs.py (tree at 4a1749f) line by
+  line over a model of the shared `io.BytesIO`.  All statements quantify over every mode string / flag
   combination, every initial content, every position and every finite sequence of calls.
 -/
 import FsModel.File
@@ -12,6 +12,8 @@ import FsProofs.Lemmas.FileLemmas
 
 namespace Fs.C16
 open Fs Fs.File Fs.FileLemmas
+
+set_option linter.unusedSimpArgs false
 
 /-! ## mode flags -/
 
@@ -77,8 +79,11 @@ example : PyMode.pyOpen ['a', 'b', '+'] = some ⟨true, true, true, false, false
 
 /-! ## `_MemoryFile` refines the io reference -/
 
-/-- the exact class of sessions excluded from the refinement: some call falls (along the
-reference run) into one of the deviation classes of `File.devClass` -/
+/-- the sessions excluded from the refinement: some call falls (along the reference run) into one
+of the three classes of `File.devClass` — the two documented tolerances (a vacuous `readline(0)`
+on a closed/unreadable handle, a vacuous `writelines([])` on a read-only handle: `io.FileIO` lets
+them through, `_MemoryFile` rejects them, and the property text asks handles without permission to
+reject) and the open finding `appendEmptyWrite` -/
 def sessionAvoids (mode : Str) (init : Option Bytes) (ops : List Op) : Bool :=
   match IoRef.openFile (Mode.flags mode) init with
   | .ok s => avoids (Mode.flags mode) s ops
@@ -94,7 +99,8 @@ theorem open_refines (fl : Flags) (hx : fl.exclusive = true → fl.create = true
   cases ex <;> cases x <;> cases c <;> cases t <;> cases a <;>
     simp_all [MemFile.openFile, IoRef.openFile, R, Bio.seekSet, Bio.seekEnd, Bio.truncate]
 
-/-- one call (outside the deviation classes): same result, related states -/
+/-- one call (outside the three classes): same result, related states — open or closed handle,
+any flags, any position (also beyond EOF), any arguments -/
 theorem step_refines (fl : Flags) (m : MemState) (r : IoState) (op : Op)
     (hR : R m r) (hd : deviates fl r op = false) :
     R (MemFile.step fl m op).1 (IoRef.step fl r op).1 ∧
@@ -117,17 +123,17 @@ theorem runFrom_refines (fl : Flags) (ops : List Op) (m : MemState) (r : IoState
     simp [MemFile.obsTell, IoRef.obsTell, hR'.2.1, hR'.2.2]
 
 /-
-  FULL STATEMENT (false of the current code, see the counterexamples below):
+  FULL STATEMENT
 
     theorem memfile_refines_ioref (mode : Str) (init : Option Bytes) (ops : List Op) :
         MemFile.run mode init ops = IoRef.run mode init ops
 
-  What is proved is the statement restricted by the decidable hypothesis `sessionAvoids`:
-  no call is (F1) made on a closed handle, (F2) a relative seek to a negative offset,
-  (F3) `truncate()` with the position beyond EOF, (F4) iteration over unread data / on an
-  unreadable handle, or one of the three tolerated stricter/vacuous cases (T0 `readline(0)` on a
-  write-only handle, T1 `writelines([])` on a read-only handle, T2 zero-length write in append
-  mode away from EOF).
+  Since the repairs d2dd72d / c173fc2 / dee803f / 4a1749f it fails only in the three classes of
+  `devClass`.  Two of them are the documented tolerance (the reference is laxer than the property
+  text on a vacuous call; rejecting is conformant), one — a zero-length write in append mode moves
+  the position — is an open finding (`memfile_refines_ioref_counterexample`).  What is proved is the
+  statement under the decidable hypothesis `sessionAvoids`; once the finding is repaired the
+  hypothesis reduces to the tolerance alone.
 -/
 theorem memfile_refines_ioref_partial (mode : Str) (init : Option Bytes) (ops : List Op)
     (h : sessionAvoids mode init ops = true) :
@@ -154,57 +160,180 @@ theorem memfile_refines_ioref_partial (mode : Str) (init : Option Bytes) (ops : 
         simp only [hm, hr] at ho h
         simp [runFrom_refines (Mode.flags mode) ops m r ho h]
 
-/-- the hypothesis is satisfiable by a non-trivial session -/
+/-- a static sufficient condition: a session without `readline(0)`, without an all-empty
+`writelines` and without `write(b"")` avoids all three classes — for every mode, content, and
+whatever else it does (use after close, seeks anywhere, truncates, iteration, …) -/
+def noVacuousCall : Op → Bool
+  | .readline (some z) => z != 0
+  | .writelines ls => !ls.all (·.isEmpty)
+  | .write d => !d.isEmpty
+  | _ => true
+
+theorem avoids_of_noVacuousCall (fl : Flags) (ops : List Op) (s : IoState)
+    (h : ops.all noVacuousCall = true) : avoids fl s ops = true := by
+  induction ops generalizing s with
+  | nil => rfl
+  | cons op ops ih =>
+    simp only [List.all_cons, Bool.and_eq_true] at h
+    simp only [avoids, Bool.and_eq_true, Bool.not_eq_true']
+    refine ⟨?_, ih _ h.2⟩
+    have h1 := h.1
+    cases op with
+    | readline n =>
+      cases n with
+      | none => simp [deviates, devClass]
+      | some z =>
+        have hz : (z == 0) = false := by simpa [noVacuousCall] using h1
+        simp [deviates, devClass, hz]
+    | writelines ls =>
+      have hall : ls.all (·.isEmpty) = false := by simpa [noVacuousCall] using h1
+      have hne : ls.isEmpty = false := by
+        cases ls with
+        | nil => simp at hall
+        | cons x xs => rfl
+      simp [deviates, devClass, hall, hne]
+    | write d =>
+      have hd : d.isEmpty = false := by simpa [noVacuousCall] using h1
+      simp [deviates, devClass, hd]
+    | read n => simp [deviates, devClass]
+    | readall => simp [deviates, devClass]
+    | readlines => simp [deviates, devClass]
+    | readinto k => simp [deviates, devClass]
+    | seek o w => simp [deviates, devClass]
+    | tell => simp [deviates, devClass]
+    | truncate z => simp [deviates, devClass]
+    | flush => simp [deviates, devClass]
+    | close => simp [deviates, devClass]
+    | next => simp [deviates, devClass]
+    | iter => simp [deviates, devClass]
+
+theorem memfile_refines_ioref_of_noVacuousCall (mode : Str) (init : Option Bytes) (ops : List Op)
+    (h : ops.all noVacuousCall = true) :
+    MemFile.run mode init ops = IoRef.run mode init ops := by
+  apply memfile_refines_ioref_partial
+  unfold sessionAvoids
+  split
+  · exact avoids_of_noVacuousCall _ _ _ h
+  · rfl
+
+/-- the hypotheses are satisfiable by non-trivial sessions (the second one runs through every
+class that used to deviate: clamped seek, truncate() beyond EOF, iteration, use after close) -/
 example : sessionAvoids ['r', '+'] (some [48, 49, 10, 50])
     [.seek 2 0, .truncate (some 8), .tell, .write [88], .seek (-3) 2, .readline none, .close] = true := by
   decide
+example : List.all [Op.seek (-1) 1, .seek 9 0, .truncate none, .seek 0 0, .iter, .read none, .close,
+    .write [88], .tell] noVacuousCall = true := by decide
 
-/-! ### the excluded classes are real: one witness each -/
+/-! ### what remains outside the theorem: one witness per class -/
 
-/-- F1: a closed `_MemoryFile` still reads — and writes into the stored file -/
+/-- F5 (open finding): in append mode a zero-length write moves `_MemoryFile`'s position to EOF;
+`a+`: `seek(0); write(b""); read()` then returns nothing instead of the file -/
 theorem memfile_refines_ioref_counterexample :
-    MemFile.run ['r', '+'] (some [48, 49]) [.close, .write [88]] ≠
-    IoRef.run ['r', '+'] (some [48, 49]) [.close, .write [88]] := by decide
+    MemFile.run ['a', '+'] (some [48, 49]) [.seek 0 0, .write [], .read none] ≠
+    IoRef.run ['a', '+'] (some [48, 49]) [.seek 0 0, .write [], .read none] := by decide
 
-theorem use_after_close_counterexample :
-    MemFile.run ['r', '+'] (some [48, 49]) [.close, .write [88]] = .ok ([(.none, none), (.nat 1, none)], [88, 49]) ∧
-    IoRef.run ['r', '+'] (some [48, 49]) [.close, .write [88]] = .ok ([(.none, none), (.err .closed, none)], [48, 49]) := by
-  decide
+theorem append_empty_write_counterexample :
+    MemFile.run ['a', '+'] (some [48, 49]) [.seek 0 0, .write [], .read none] =
+      .ok ([(.nat 0, some 0), (.nat 0, some 2), (.bytes [], some 2)], [48, 49]) ∧
+    IoRef.run ['a', '+'] (some [48, 49]) [.seek 0 0, .write [], .read none] =
+      .ok ([(.nat 0, some 0), (.nat 0, some 0), (.bytes [48, 49], some 2)], [48, 49]) :=
+  ⟨by decide, by decide⟩
 
-/-- F2: `seek(-1, SEEK_CUR)` at position 0 returns 0 instead of being rejected -/
-theorem seek_negative_clamped_counterexample :
-    MemFile.run ['r'] (some [48]) [.seek (-1) 1] = .ok ([(.nat 0, some 0)], [48]) ∧
-    IoRef.run ['r'] (some [48]) [.seek (-1) 1] = .ok ([(.err .invalid, some 0)], [48]) := by decide
-
-/-- F3: `seek(3); truncate()` does not extend the file -/
-theorem truncate_none_past_eof_counterexample :
-    MemFile.run ['r', '+'] (some [48]) [.seek 3 0, .truncate none] = .ok ([(.nat 3, some 3), (.nat 3, some 3)], [48]) ∧
-    IoRef.run ['r', '+'] (some [48]) [.seek 3 0, .truncate none] = .ok ([(.nat 3, some 3), (.nat 3, some 3)], [48, 0, 0]) := by
-  decide
-
-/-- F4: `list(f)` leaves `tell()` at 0, so the data is read twice -/
-theorem iteration_keeps_position_counterexample :
-    MemFile.run ['r'] (some [97, 10, 98]) [.iter, .read none] =
-      .ok ([(.lines [[97, 10], [98]], some 0), (.bytes [97, 10, 98], some 3)], [97, 10, 98]) ∧
-    IoRef.run ['r'] (some [97, 10, 98]) [.iter, .read none] =
-      .ok ([(.lines [[97, 10], [98]], some 3), (.bytes [], some 3)], [97, 10, 98]) := by decide
-
-/-- F4: `next(f)` returns data on a handle opened without read permission -/
-theorem iteration_ignores_mode_counterexample :
-    MemFile.run ['a'] (some [97, 10, 98]) [.seek 0 0, .next] =
-      .ok ([(.nat 0, some 0), (.bytes [97, 10], some 2)], [97, 10, 98]) ∧
-    IoRef.run ['a'] (some [97, 10, 98]) [.seek 0 0, .next] =
-      .ok ([(.nat 0, some 0), (.err .notPermitted, some 0)], [97, 10, 98]) := by decide
-
-/-- T0/T1/T2: the tolerated differences (stricter rejection of a vacuous call; position after a
-zero-length append) -/
+/-- T0/T1 (documented tolerance): `readline(0)` on a write-only or closed handle and
+`writelines([])` on a read-only handle are rejected by `_MemoryFile` and let through by `io.FileIO`;
+nothing else differs (state, position and bytes are the same afterwards) -/
 theorem tolerated_classes_counterexample :
-    MemFile.run ['w'] none [.readline (some 0)] ≠ IoRef.run ['w'] none [.readline (some 0)] ∧
-    MemFile.run ['r'] (some []) [.writelines []] ≠ IoRef.run ['r'] (some []) [.writelines []] ∧
-    MemFile.run ['a'] (some [48]) [.seek 0 0, .write []] ≠ IoRef.run ['a'] (some [48]) [.seek 0 0, .write []] :=
-  ⟨by decide, by decide, by decide⟩
+    MemFile.run ['w'] none [.readline (some 0)] = .ok ([(.err .notPermitted, some 0)], []) ∧
+    IoRef.run ['w'] none [.readline (some 0)] = .ok ([(.bytes [], some 0)], []) ∧
+    MemFile.run ['r'] (some [48]) [.close, .readline (some 0)] = .ok ([(.none, none), (.err .closed, none)], [48]) ∧
+    IoRef.run ['r'] (some [48]) [.close, .readline (some 0)] = .ok ([(.none, none), (.bytes [], none)], [48]) ∧
+    MemFile.run ['r'] (some []) [.writelines []] = .ok ([(.err .notPermitted, some 0)], []) ∧
+    IoRef.run ['r'] (some []) [.writelines []] = .ok ([(.none, some 0)], []) :=
+  ⟨by decide, by decide, by decide, by decide, by decide, by decide⟩
 
-/-- the four defects repaired by `5781f51` stay repaired in the model (regression witnesses) -/
+/-- in the tolerated classes only the result of that call differs: the states stay related -/
+theorem tolerated_calls_keep_state (fl : Flags) (m : MemState) (r : IoState) (op : Op) (hR : R m r)
+    (ht : devClass fl r op = some .readlineZero ∨ devClass fl r op = some .writelinesEmptyRO) :
+    R (MemFile.step fl m op).1 (IoRef.step fl r op).1 ∧ (MemFile.step fl m op).1 = m ∧
+    (IoRef.step fl r op).1 = r := by
+  obtain ⟨⟨b, bp⟩, p, c⟩ := m
+  obtain ⟨b', p', c'⟩ := r
+  obtain ⟨h1, h2, h3⟩ := hR
+  simp only at h1 h2 h3
+  subst h1 h2 h3
+  cases op with
+  | readline n =>
+    cases n with
+    | none => simp [devClass] at ht
+    | some z =>
+      simp [devClass] at ht
+      obtain ⟨hz, hcr⟩ := ht
+      subst hz
+      cases c <;> simp_all [MemFile.step, MemFile.stepClosed, MemFile.stepOpen, IoRef.step,
+        IoRef.isReadline0, R]
+  | writelines ls =>
+    cases c <;> cases hw : fl.writing <;> cases ls <;>
+      simp_all [devClass, MemFile.step, MemFile.stepClosed, MemFile.stepOpen, IoRef.step, IoRef.stepOpen,
+        IoRef.isReadline0, R]
+    all_goals (split at ht <;> simp_all)
+  | write d =>
+    exfalso
+    simp only [devClass] at ht
+    rcases ht with ht | ht <;> (split at ht <;> (try split at ht) <;> simp_all)
+  | read n => simp [devClass] at ht
+  | readall => simp [devClass] at ht
+  | readlines => simp [devClass] at ht
+  | readinto k => simp [devClass] at ht
+  | seek o w => simp [devClass] at ht
+  | tell => simp [devClass] at ht
+  | truncate z => simp [devClass] at ht
+  | flush => simp [devClass] at ht
+  | close => simp [devClass] at ht
+  | next => simp [devClass] at ht
+  | iter => simp [devClass] at ht
+
+/-! ### regression theorems: the repaired defects stay repaired (each was a `…_counterexample`
+of the previous tree; now both machines agree on the very same witness) -/
+
+/-- 4a1749f: a closed `_MemoryFile` rejects reads and writes and leaves the stored file alone -/
+theorem use_after_close_repaired :
+    MemFile.run ['r', '+'] (some [48, 49]) [.close, .write [88], .read none, .tell, .flush, .close] =
+      .ok ([(.none, none), (.err .closed, none), (.err .closed, none), (.err .closed, none),
+            (.err .closed, none), (.none, none)], [48, 49]) ∧
+    MemFile.run ['r', '+'] (some [48, 49]) [.close, .write [88], .read none, .tell, .flush, .close] =
+      IoRef.run ['r', '+'] (some [48, 49]) [.close, .write [88], .read none, .tell, .flush, .close] :=
+  ⟨by decide, by decide⟩
+
+/-- c173fc2: a relative seek to a negative offset is rejected and does not move -/
+theorem seek_negative_repaired :
+    MemFile.run ['r'] (some [48]) [.seek (-1) 1, .seek (-2) 2] =
+      .ok ([(.err .invalid, some 0), (.err .invalid, some 0)], [48]) ∧
+    MemFile.run ['r'] (some [48]) [.seek (-1) 1, .seek (-2) 2] =
+      IoRef.run ['r'] (some [48]) [.seek (-1) 1, .seek (-2) 2] :=
+  ⟨by decide, by decide⟩
+
+/-- d2dd72d: `seek(3); truncate()` extends the file with zeros -/
+theorem truncate_none_past_eof_repaired :
+    MemFile.run ['r', '+'] (some [48]) [.seek 3 0, .truncate none] =
+      .ok ([(.nat 3, some 3), (.nat 3, some 3)], [48, 0, 0]) ∧
+    MemFile.run ['r', '+'] (some [48]) [.seek 3 0, .truncate none] =
+      IoRef.run ['r', '+'] (some [48]) [.seek 3 0, .truncate none] :=
+  ⟨by decide, by decide⟩
+
+/-- dee803f: iteration advances the position and honours the mode -/
+theorem iteration_repaired :
+    MemFile.run ['r'] (some [97, 10, 98]) [.iter, .read none] =
+      .ok ([(.lines [[97, 10], [98]], some 3), (.bytes [], some 3)], [97, 10, 98]) ∧
+    MemFile.run ['a'] (some [97, 10, 98]) [.seek 0 0, .next, .iter] =
+      .ok ([(.nat 0, some 0), (.err .notPermitted, some 0), (.err .notPermitted, some 0)], [97, 10, 98]) ∧
+    MemFile.run ['r'] (some [97, 10, 98]) [.iter, .read none] =
+      IoRef.run ['r'] (some [97, 10, 98]) [.iter, .read none] ∧
+    MemFile.run ['a'] (some [97, 10, 98]) [.seek 0 0, .next, .iter] =
+      IoRef.run ['a'] (some [97, 10, 98]) [.seek 0 0, .next, .iter] :=
+  ⟨by decide, by decide, by decide, by decide⟩
+
+/-- 5781f51: truncate(size) keeps the position, append writes at EOF, read-only handles reject
+truncate and writelines -/
 theorem repaired_defects_agree :
     MemFile.run ['r', '+'] (some [48, 49, 50, 51]) [.seek 2 0, .truncate (some 8), .tell] =
       IoRef.run ['r', '+'] (some [48, 49, 50, 51]) [.seek 2 0, .truncate (some 8), .tell] ∧
@@ -219,17 +348,19 @@ and on the reference where it reads differently) -/
 /-- append mode: wherever the position is, the data goes to the end of the file and the
 position ends up after it -/
 theorem append_writes_at_end (fl : Flags) (m : MemState) (d : Bytes)
-    (hw : fl.writing = true) (ha : fl.appending = true) :
+    (hw : fl.writing = true) (ha : fl.appending = true) (ho : m.closed = false) :
     (MemFile.step fl m (.write d)).1.bio.bytes = m.bio.bytes ++ d ∧
     (MemFile.step fl m (.write d)).1.pos = (m.bio.bytes ++ d).length ∧
     (MemFile.step fl m (.write d)).2 = .nat d.length := by
   obtain ⟨⟨b, bp⟩, p, c⟩ := m
+  simp only at ho; subst ho
   by_cases hd : d.isEmpty = true
   · have : d = [] := by simpa using hd
     subst this
-    simp [MemFile.step, hw, ha, MemFile.seekLock, Bio.write, Bio.seekSet, Bio.seekEnd, Out.isErr]
-  · simp [MemFile.step, hw, ha, MemFile.seekLock, Bio.write, Bio.seekSet, Bio.seekEnd, Out.isErr, hd,
-      writeAt_end]
+    simp [MemFile.step, MemFile.stepOpen, hw, ha, MemFile.seekLock, Bio.write, Bio.seekSet, Bio.seekEnd,
+      Out.isErr]
+  · simp [MemFile.step, MemFile.stepOpen, hw, ha, MemFile.seekLock, Bio.write, Bio.seekSet, Bio.seekEnd,
+      Out.isErr, hd, writeAt_end]
 
 theorem append_writes_at_end_ref (fl : Flags) (s : IoState) (d : Bytes)
     (hw : fl.writing = true) (ha : fl.appending = true) (ho : s.closed = false) (hd : d ≠ []) :
@@ -240,37 +371,36 @@ theorem append_writes_at_end_ref (fl : Flags) (s : IoState) (d : Bytes)
 
 /-- `writelines` in append mode: all pieces go to the end, in order -/
 theorem append_writelines_at_end (fl : Flags) (m : MemState) (ls : List Bytes)
-    (hw : fl.writing = true) (ha : fl.appending = true) :
+    (hw : fl.writing = true) (ha : fl.appending = true) (ho : m.closed = false) :
     (MemFile.step fl m (.writelines ls)).1.bio.bytes = m.bio.bytes ++ ls.flatten := by
   obtain ⟨⟨b, bp⟩, p, c⟩ := m
+  simp only at ho; subst ho
   have := (foldl_write_at_end fl ls b false).2
-  simp [MemFile.step, hw, ha, MemFile.seekLock, Bio.seekSet, Bio.seekEnd, Out.isErr, this]
+  simp [MemFile.step, MemFile.stepOpen, hw, ha, MemFile.seekLock, Bio.seekSet, Bio.seekEnd, Out.isErr, this]
 
-/-- `truncate(size)`: the position does not move; the file keeps its first `size` bytes and is
-extended with zero bytes when it was shorter -/
-theorem truncate_keeps_pos_zero_extends (fl : Flags) (m : MemState) (z : Int)
-    (hw : fl.writing = true) (hz : 0 ≤ z) (ho : m.closed = false) :
-    (MemFile.step fl m (.truncate (some z))).1.pos = m.pos ∧
-    (MemFile.step fl m (.truncate (some z))).1.bio.bytes =
-      m.bio.bytes.take z.toNat ++ zeros (z.toNat - m.bio.bytes.length) ∧
-    (MemFile.step fl m (.truncate (some z))).2 = .nat z.toNat := by
+/-- `truncate(size)` and `truncate()` (= `truncate(tell())`): the position does not move; the file
+keeps its first `size` bytes and is extended with zero bytes when it was shorter -/
+theorem truncate_keeps_pos_zero_extends (fl : Flags) (m : MemState) (size : Option Int)
+    (hw : fl.writing = true) (hz : ∀ z, size = some z → 0 ≤ z) (ho : m.closed = false) :
+    let n : Nat := match size with | none => m.pos | some z => z.toNat
+    (MemFile.step fl m (.truncate size)).1.pos = m.pos ∧
+    (MemFile.step fl m (.truncate size)).1.bio.bytes =
+      m.bio.bytes.take n ++ zeros (n - m.bio.bytes.length) ∧
+    (MemFile.step fl m (.truncate size)).2 = .nat n := by
   have hR : R m ⟨m.bio.bytes, m.pos, false⟩ := ⟨rfl, rfl, ho⟩
-  have hd : deviates fl ⟨m.bio.bytes, m.pos, false⟩ (.truncate (some z)) = false := by
+  have hd : deviates fl ⟨m.bio.bytes, m.pos, false⟩ (.truncate size) = false := by
     simp [deviates, devClass]
   obtain ⟨⟨h1, h2, _⟩, h3⟩ := FileLemmas.step_refines fl m _ _ hR hd
-  have hz' : ¬ z < 0 := by omega
-  simp only [IoRef.step, IoRef.stepOpen, IoRef.isReadline0, hw, hz'] at h1 h2 h3
-  simp at h1 h2 h3
-  exact ⟨h2, by rw [h1, resize_eq], h3⟩
-
-/-- `truncate()` (no size) cuts at the position and keeps it, as long as the position is inside
-the file (beyond EOF the current code does not extend: `truncate_none_past_eof_counterexample`) -/
-theorem truncate_none_cuts_at_pos (fl : Flags) (m : MemState)
-    (hw : fl.writing = true) :
-    (MemFile.step fl m (.truncate none)).1.pos = m.pos ∧
-    (MemFile.step fl m (.truncate none)).1.bio.bytes = m.bio.bytes.take m.pos := by
-  obtain ⟨⟨b, bp⟩, p, c⟩ := m
-  simp [MemFile.step, hw, MemFile.seekLock, Bio.truncate, Bio.seekSet, Out.isErr]
+  cases size with
+  | none =>
+    simp only [IoRef.step, IoRef.stepOpen, IoRef.isReadline0, hw] at h1 h2 h3
+    simp at h1 h2 h3
+    exact ⟨h2, by rw [h1, resize_eq], h3⟩
+  | some z =>
+    have hz' : ¬ z < 0 := by have := hz z rfl; omega
+    simp only [IoRef.step, IoRef.stepOpen, IoRef.isReadline0, hw, hz'] at h1 h2 h3
+    simp at h1 h2 h3
+    exact ⟨h2, by rw [h1, resize_eq], h3⟩
 
 /-- opening with `w` empties an existing file (both machines), whatever the other flags -/
 theorem w_truncates (mode : Str) (b : Bytes) (hv : Mode.validateBin mode = .ok ())
@@ -306,13 +436,14 @@ theorem r_fails_if_missing (mode : Str) (ops : List Op) (hv : Mode.validateBin m
   · simp [MemFile.run, hv, MemFile.openFile, Mode.flags, hc]
   · simp [IoRef.run, hv, IoRef.openFile, Mode.flags, hc]
 
-/-- a handle without write permission rejects write, writelines and truncate and changes nothing -/
+/-- a handle without write permission rejects write, writelines (even of nothing) and truncate
+and changes nothing -/
 theorem no_write_rejects_write_writelines_truncate (fl : Flags) (m : MemState) (hw : fl.writing = false)
-    (d : Bytes) (ls : List Bytes) (z : Option Int) :
+    (ho : m.closed = false) (d : Bytes) (ls : List Bytes) (z : Option Int) :
     MemFile.step fl m (.write d) = (m, .err .notPermitted) ∧
     MemFile.step fl m (.writelines ls) = (m, .err .notPermitted) ∧
     MemFile.step fl m (.truncate z) = (m, .err .notPermitted) := by
-  simp [MemFile.step, hw]
+  simp [MemFile.step, MemFile.stepOpen, hw, ho]
 
 theorem no_write_rejects_write_writelines_truncate_ref (fl : Flags) (s : IoState) (hw : fl.writing = false)
     (ho : s.closed = false) (d : Bytes) (ls : List Bytes) (hls : ls ≠ []) (z : Option Int) :
@@ -322,16 +453,18 @@ theorem no_write_rejects_write_writelines_truncate_ref (fl : Flags) (s : IoState
   have : ls.isEmpty = false := by cases ls <;> simp_all
   simp [IoRef.step, IoRef.stepOpen, IoRef.isReadline0, hw, ho, this]
 
-/-- a handle without read permission rejects read, readall, readinto, readline and readlines
-and changes nothing (iteration is not rejected: `iteration_ignores_mode_counterexample`) -/
+/-- a handle without read permission rejects every reading call — read, readall, readinto,
+readline, readlines, `next` and iteration — and changes nothing -/
 theorem no_read_rejects_reads (fl : Flags) (m : MemState) (hr : fl.reading = false)
-    (n : Option Int) (k : Nat) :
+    (ho : m.closed = false) (n : Option Int) (k : Nat) :
     MemFile.step fl m (.read n) = (m, .err .notPermitted) ∧
     MemFile.step fl m .readall = (m, .err .notPermitted) ∧
     MemFile.step fl m (.readinto k) = (m, .err .notPermitted) ∧
     MemFile.step fl m (.readline n) = (m, .err .notPermitted) ∧
-    MemFile.step fl m .readlines = (m, .err .notPermitted) := by
-  simp [MemFile.step, hr]
+    MemFile.step fl m .readlines = (m, .err .notPermitted) ∧
+    MemFile.step fl m .next = (m, .err .notPermitted) ∧
+    MemFile.step fl m .iter = (m, .err .notPermitted) := by
+  simp [MemFile.step, MemFile.stepOpen, MemFile.nextStep, MemFile.iterLoop, hr, ho]
 
 theorem no_read_rejects_reads_ref (fl : Flags) (s : IoState) (hr : fl.reading = false)
     (ho : s.closed = false) (n : Option Int) (hn : n ≠ some 0) (k : Nat) :
@@ -351,38 +484,64 @@ theorem no_read_rejects_reads_ref (fl : Flags) (s : IoState) (hr : fl.reading = 
   simp [IoRef.step, IoRef.stepOpen, hr, ho, h0]
   simp [IoRef.isReadline0]
 
-/-- every call on a closed reference file is rejected, except `close()` (idempotent) and the
-vacuous `readline(0)` -/
+/-- close() is final: every call on a closed `_MemoryFile` except `close()` itself is rejected
+with the closed-file error and neither the handle nor the stored file changes -/
+theorem closed_rejects_everything (fl : Flags) (m : MemState) (hc : m.closed = true) (op : Op)
+    (h1 : op ≠ .close) :
+    MemFile.step fl m op = (m, .err .closed) ∧ MemFile.step fl m .close = (m, .none) := by
+  cases op <;> simp_all [MemFile.step, MemFile.stepClosed]
+
 theorem closed_rejects_everything_ref (fl : Flags) (s : IoState) (hc : s.closed = true) (op : Op)
     (h1 : op ≠ .close) (h2 : IoRef.isReadline0 op = false) :
     IoRef.step fl s op = (s, .err .closed) := by
   cases op <;> simp_all [IoRef.step, IoRef.stepClosed]
 
+/-- a relative seek whose target would be negative is rejected and moves nothing -/
+theorem seek_negative_rejected (fl : Flags) (m : MemState) (off : Int) (ho : m.closed = false) :
+    (Int.ofNat m.pos + off < 0 → (MemFile.step fl m (.seek off 1)).2 = .err .invalid ∧
+      (MemFile.step fl m (.seek off 1)).1.pos = m.pos) ∧
+    (Int.ofNat m.bio.bytes.length + off < 0 → (MemFile.step fl m (.seek off 2)).2 = .err .invalid ∧
+      (MemFile.step fl m (.seek off 2)).1.pos = m.pos) := by
+  obtain ⟨⟨b, bp⟩, p, c⟩ := m
+  simp only at ho; subst ho
+  constructor
+  · intro h
+    have h' : (p : Int) + off < 0 := h
+    simp [MemFile.step, MemFile.stepOpen, MemFile.seekLock, Bio.seekSet, Out.isErr, h']
+  · intro h
+    have h' : (b.length : Int) + off < 0 := h
+    simp [MemFile.step, MemFile.stepOpen, MemFile.seekLock, Bio.seekSet, Bio.seekEnd, Out.isErr, h']
+
 /-- seeking beyond EOF and writing fills the gap with zero bytes -/
 theorem seek_past_end_write_zero_fills (fl : Flags) (m : MemState) (k : Nat) (d : Bytes)
-    (hw : fl.writing = true) (ha : fl.appending = false) (hd : d ≠ []) (hp : m.pos = m.bio.bytes.length + k) :
+    (hw : fl.writing = true) (ha : fl.appending = false) (hd : d ≠ []) (ho : m.closed = false)
+    (hp : m.pos = m.bio.bytes.length + k) :
     (MemFile.step fl m (.write d)).1.bio.bytes = m.bio.bytes ++ zeros k ++ d := by
   obtain ⟨⟨b, bp⟩, p, c⟩ := m
-  simp only at hp
-  subst hp
+  simp only at hp ho
+  subst hp ho
   have hd' : d.isEmpty = false := by cases d <;> simp_all
   have ht : List.take (b.length + k) (b ++ List.replicate k (0 : UInt8)) = b ++ List.replicate k 0 :=
     List.take_of_length_le (by simp)
   have hdr : List.drop (b.length + k + d.length) b = [] := List.drop_eq_nil_of_le (by omega)
-  simp [MemFile.step, hw, ha, MemFile.seekLock, Bio.write, Bio.seekSet, Out.isErr, hd', writeAt, zeros, ht, hdr]
+  simp [MemFile.step, MemFile.stepOpen, hw, ha, MemFile.seekLock, Bio.write, Bio.seekSet, Out.isErr, hd',
+    writeAt, zeros, ht, hdr]
 
 /-- reads at or beyond EOF return nothing and do not move -/
 theorem read_at_eof_empty (fl : Flags) (m : MemState) (n : Option Int)
-    (hr : fl.reading = true) (hp : m.bio.bytes.length ≤ m.pos) :
+    (hr : fl.reading = true) (ho : m.closed = false) (hp : m.bio.bytes.length ≤ m.pos) :
     (MemFile.step fl m (.read n)).2 = .bytes [] ∧ (MemFile.step fl m (.read n)).1.pos = m.pos := by
   obtain ⟨⟨b, bp⟩, p, c⟩ := m
-  simp only at hp
+  simp only at hp ho
+  subst ho
   have hdrop : List.drop p b = [] := List.drop_eq_nil_of_le hp
   cases n with
-  | none => simp [MemFile.step, hr, MemFile.seekLock, Bio.read, Bio.seekSet, Out.isErr, limit, hdrop]
+  | none =>
+    simp [MemFile.step, MemFile.stepOpen, hr, MemFile.seekLock, Bio.read, Bio.seekSet, Out.isErr, limit, hdrop]
   | some z =>
     by_cases hz : z < 0 <;>
-      simp [MemFile.step, hr, MemFile.seekLock, Bio.read, Bio.seekSet, Out.isErr, limit, hdrop, hz]
+      simp [MemFile.step, MemFile.stepOpen, hr, MemFile.seekLock, Bio.read, Bio.seekSet, Out.isErr, limit,
+        hdrop, hz]
 
 /-! non-vacuity of the corollaries' hypotheses -/
 example : (Mode.flags ['a', '+']).writing = true ∧ (Mode.flags ['a', '+']).appending = true := by decide
@@ -391,6 +550,8 @@ example : Mode.validateBin ['x', 'b'] = .ok () ∧ Mode.has ['x', 'b'] 'x' = tru
 example : Mode.validateBin ['w', '+'] = .ok () ∧ Mode.has ['w', '+'] 'w' = true ∧ Mode.has ['w', '+'] 'x' = false := by
   decide
 example : deviates (Mode.flags ['r', '+']) ⟨[1, 2, 3], 1, false⟩ (.truncate (some 7)) = false := by decide
+example : deviates (Mode.flags ['r', '+']) ⟨[1, 2, 3], 9, true⟩ (.truncate none) = false := by decide
+example : devClass (Mode.flags ['w']) ⟨[], 0, false⟩ (.readline (some 0)) = some .readlineZero := by decide
 example : R ⟨⟨[1, 2, 3], 0⟩, 2, false⟩ ⟨[1, 2, 3], 2, false⟩ := ⟨rfl, rfl, rfl⟩
 
 end Fs.C16
